@@ -106,8 +106,7 @@ theorem initEK_accepts_iff (p : BlakeInitEK.P) :
 
 /-- pair (E, K): the constructor returns or raises `ValueError`, nothing else -/
 theorem initEK_total (p : BlakeInitEK.P) : BlakeInitEK.outcome p = .ok ∨ BlakeInitEK.outcome p = .raise "ValueError" := by
-  simp only [BlakeInitEK.outcome]
-  split_ifs <;> simp
+  epv_ok_or_valueError
 
 theorem initEK_raise (p : BlakeInitEK.P) (h : BlakeInitEK.outcome p ≠ .ok) : BlakeInitEK.outcome p = .raise "ValueError" :=
   (initEK_total p).resolve_left h
@@ -202,8 +201,7 @@ theorem initEM_accepts_iff (p : BlakeInitEM.P) :
 
 /-- pair (E, M): the constructor returns or raises `ValueError`, nothing else -/
 theorem initEM_total (p : BlakeInitEM.P) : BlakeInitEM.outcome p = .ok ∨ BlakeInitEM.outcome p = .raise "ValueError" := by
-  simp only [BlakeInitEM.outcome]
-  split_ifs <;> simp
+  epv_ok_or_valueError
 
 theorem initEM_raise (p : BlakeInitEM.P) (h : BlakeInitEM.outcome p ≠ .ok) : BlakeInitEM.outcome p = .raise "ValueError" :=
   (initEM_total p).resolve_left h
@@ -271,8 +269,7 @@ theorem initNuK_accepts_iff (p : BlakeInitNuK.P) :
 
 /-- pair (ν, K): the constructor returns or raises `ValueError`, nothing else -/
 theorem initNuK_total (p : BlakeInitNuK.P) : BlakeInitNuK.outcome p = .ok ∨ BlakeInitNuK.outcome p = .raise "ValueError" := by
-  simp only [BlakeInitNuK.outcome]
-  split_ifs <;> simp
+  epv_ok_or_valueError
 
 theorem initNuK_raise (p : BlakeInitNuK.P) (h : BlakeInitNuK.outcome p ≠ .ok) : BlakeInitNuK.outcome p = .raise "ValueError" :=
   (initNuK_total p).resolve_left h
@@ -341,8 +338,7 @@ theorem initNuM_accepts_iff (p : BlakeInitNuM.P) :
 
 /-- pair (ν, M): the constructor returns or raises `ValueError`, nothing else -/
 theorem initNuM_total (p : BlakeInitNuM.P) : BlakeInitNuM.outcome p = .ok ∨ BlakeInitNuM.outcome p = .raise "ValueError" := by
-  simp only [BlakeInitNuM.outcome]
-  split_ifs <;> simp
+  epv_ok_or_valueError
 
 theorem initNuM_raise (p : BlakeInitNuM.P) (h : BlakeInitNuM.outcome p ≠ .ok) : BlakeInitNuM.outcome p = .raise "ValueError" :=
   (initNuM_total p).resolve_left h
@@ -393,8 +389,7 @@ theorem initKM_accepts_iff (p : BlakeInitKM.P) :
 
 /-- pair (K, M): the constructor returns or raises `ValueError`, nothing else -/
 theorem initKM_total (p : BlakeInitKM.P) : BlakeInitKM.outcome p = .ok ∨ BlakeInitKM.outcome p = .raise "ValueError" := by
-  simp only [BlakeInitKM.outcome]
-  split_ifs <;> simp
+  epv_ok_or_valueError
 
 theorem initKM_raise (p : BlakeInitKM.P) (h : BlakeInitKM.outcome p ≠ .ok) : BlakeInitKM.outcome p = .raise "ValueError" :=
   (initKM_total p).resolve_left h
